@@ -17,7 +17,7 @@ RULE = ('Hypothesis constructions: data abscissae (5-120 values; uniform / clust
         'discontinuous spline); basis non-negative and summing to one; mask == inside the breakpoint range.  Non-trivial = order >= 2, '
         'unsorted evaluation points hitting >= 3 distinct intervals.')
 ASSUMPTIONS = ['explicit / placed breakpoints are strictly increasing and data ranges are positive (>= 2 distinct breakpoints result); everyn <= nx/2 '
-               'with distinct sorted data, as iterfit passes them',
+               'with sorted data that are distinct in single precision (the breakpoints are stored as float32), as iterfit passes them',
                'values outside the breakpoint range are not asserted (only the mask is): pydl extrapolates the end polynomial there',
                'coverage of the data range is asserted to float32 rounding (2^-22 x max|x|), as the statement says',
                'value tolerance 1e-9 x (1 + max|coeff|)']
@@ -64,7 +64,14 @@ def case_strategy(draw):
     elif opt == 'nbkpts':
         kw['nbkpts'] = draw(st.integers(0, 20))
     else:
-        x = sorted(set(x))
+        # everyn takes its breakpoints from the data and stores them in single precision: the data must be distinct there too
+        seen, xd = set(), []
+        for v in sorted(set(x)):
+            k = float(np.float32(v))
+            if k not in seen:
+                seen.add(k)
+                xd.append(v)
+        x = xd
         if len(x) < 4:
             x = [lo + span * i / 5 for i in range(6)]
         kw['everyn'] = draw(st.integers(1, max(1, len(x) // 2)))
